@@ -910,6 +910,10 @@ class SymStr:
             else:
                 # non ASCII: case mapping tables are host data; explore by finite concretisation
                 s = str(c)  # Unsupported when more than 256 values are feasible
+                if s == "\u03a3" and not up:
+                    # final sigma: the only context sensitive mapping of str.lower()
+                    w = self.conc()
+                    return w.lower()
                 out.extend(list(s.upper() if up else s.lower()))
         return SymStr.mk(out)
 
